@@ -53,6 +53,7 @@ fn main() {
         "cbor-make-credential-request" => guarded(move || cbor::mc_request(&hex(&arg))),
         "shipped-store" => guarded(move || ceremony::shipped_store(&arg)),
         "client-ceremonies" => guarded(move || client::sweep()),
+        "client-prf" => guarded(move || { let _ = &arg; client::prf_inputs() }),
         "ceremony" => guarded(move || ceremony::run(&arg)),
         "c18-trait" => ceremony::c18(&arg),
         "rpid-web" => guarded(move || rpid::web(&arg)),
@@ -63,6 +64,7 @@ fn main() {
         "psl-rules" => guarded(move || pslenum::emit_rules(&arg)),
         "hid-packets" => guarded(move || hid::packets_no_panic(&arg)),
         "hid-roundtrip" => guarded(move || hid::roundtrip(&arg)),
+        "hid-interleave" => guarded(move || hid::interleave(&arg)),
         _ => (false, false, format!("unknown entry {entry}")),
     };
     println!("{{\"entry\":\"{}\",\"panicked\":{},\"violates\":{},\"detail\":\"{}\"}}", esc(&entry), panicked, violates, esc(&detail));
